@@ -71,7 +71,7 @@ MANIFEST = {
     "text": "Every reward returned by env.get_reward on completed mask-confined episodes (padded and unpadded rows alike) is "
             "compared with an objective recomputed from the reset-time instance snapshot and the executed actions, for every "
             "reward mode in the zoo (mTSP minmax/sum, MTVRP open/closed, SPCTSP stochastic prize, SVRP technician costs, "
-            "scheduling makespans, SMTWTP tardiness, MCP coverage, FLP distances). Exploration over instances x histories.",
+            "scheduling makespans, SMTWTP tardiness, MCP coverage, FLP distances). Exploration over instances x histories. Also: rewards read from an invalid implied schedule are violations, get_reward is asked three times for the same final state (idempotence), instances of another size, DenseRewardTSPEnv.",
     "note": "Trusted base: the objective functions in vlib/oracles (hand-checked miniatures at import). MDCPDP is handled by "
             "its own oracle in the same sweep (see DESIGN section 9).",
     "technique": "runtime monitoring: reference-model oracle (float64 objective from recorded instance + actions) vs observed reward",
